@@ -353,8 +353,9 @@ def run_obligation(ob: Obligation, seed=0):
                     ctx.assume.append(a)
             def _one_path():
                 work = copy_inputs(inputs)
+                del _ARG_MUTATIONS[:]
                 res = ob.call(work)
-                ch = None if ob.mutable_inputs else inputs_changed(work, inputs)
+                ch = None if ob.mutable_inputs else (inputs_changed(work, inputs) or (_ARG_MUTATIONS[0] if _ARG_MUTATIONS else None))
                 return _Mutated(ch, res) if ch else res
             paths, complete = explore(ctx, _one_path, max_paths=ob.max_paths,
                                       feas_timeout_ms=ob.feas_timeout_ms)
@@ -408,7 +409,7 @@ def run_obligation(ob: Obligation, seed=0):
                 r, _ = ctx.check(p.pc, timeout_ms=ob.timeout_ms)
                 if r == "sat":
                     rec["reachable"] = True
-                    if p.exc is None:
+                    if p.exc is None and not isinstance(p.result, _Mutated):
                         live = p
                         break
             if not rec["reachable"]:
@@ -506,6 +507,47 @@ class _Mutated:
         self.which, self.result = which, result
 
 
+# ---- argument guard: every call from a check into a toqito function snapshots its list / array arguments ----------
+_ARG_MUTATIONS = []
+
+
+def guard(f):
+    """wrap a toqito function so that an in-place change of one of its list / ndarray arguments is recorded"""
+    import functools
+    if getattr(f, "_verif_guard", False):
+        return f
+
+    @functools.wraps(f)
+    def w(*a, **k):
+        sa, sk = copy_inputs(list(a)), copy_inputs(dict(k))
+        try:
+            return f(*a, **k)
+        finally:      # also when the call is aborted (a captured Problem.solve, a symbolic-execution fork)
+            ch = inputs_changed(list(a), sa, f"{f.__name__}() positional argument") or inputs_changed(dict(k), sk, f"{f.__name__}() keyword argument")
+            if ch:
+                _ARG_MUTATIONS.append(ch)
+    w._verif_guard = True
+    return w
+
+
+def task_mutation_verdict(rec):
+    """for tasks outside run_obligation: an argument changed in place during the task's guarded calls into toqito is a
+    violation observed on the real code (the guard compares the real argument before and after the real call)"""
+    if _ARG_MUTATIONS and rec.get("status") not in ("violation", "error"):
+        rec["status"] = "violation"
+        rec["violation"] = {"source": "argument guard: the real call changed one of its list / array arguments in place",
+                            "inputs": jsonable(rec.get("cfg")), "mutated_argument": _ARG_MUTATIONS[0]}
+    del _ARG_MUTATIONS[:]
+
+
+def guard_module(mod):
+    """guard every plain function a check module imported from toqito"""
+    import inspect
+    for name, val in list(vars(mod).items()):
+        if inspect.isfunction(val) and (getattr(val, "__module__", "") or "").startswith("toqito."):
+            setattr(mod, name, guard(val))
+
+
 def numeric_run(ob, ninputs):
     """the real function on plain numbers, no proxies; returns (result, exc)"""
     try:
@@ -521,9 +563,10 @@ def numeric_verdict(ob, ninputs):
     post = ob.post or _default_post
     pristine = ninputs
     ninputs = copy_inputs(pristine)
+    del _ARG_MUTATIONS[:]
     res, exc = numeric_run(ob, ninputs)
     if not ob.mutable_inputs:
-        ch = inputs_changed(ninputs, pristine)
+        ch = inputs_changed(ninputs, pristine) or (_ARG_MUTATIONS[0] if _ARG_MUTATIONS else None)
         if ch:
             return False, {"mutated_argument": ch, "note": "the call modified its argument in place"}
     ninputs = pristine
